@@ -45,15 +45,18 @@ def _lags(dim, ls, seed):
 def spectral_cell(job):
     """one cell: build RandMeth(model, mode_no, seed, sampling) and compare mean_j cos<k_j,h> with rho(|h|).
     Threshold 8 batch-means standard errors (20 batches) + 0.02 absolute.  Runs in a worker process."""
-    cls, dim, path, n, seed, ls = job
+    cls, dim, path, n, seed, ls = job[:6]
+    hist = job[6] if len(job) > 6 else None
     import warnings
     warnings.filterwarnings("ignore")
     import gstools as gs
     from gstools.field.generator import RandMeth
     t0 = time.time()
     res = dict(cls=cls, dim=dim, path=path, N=n, seed=seed, len_scale=ls)
+    if hist:
+        res["history"] = list(hist)
     try:
-        m = getattr(gs, cls)(dim=dim, var=1.0, len_scale=ls)
+        m = build_by_history(cls, dim, ls, hist)
         g = RandMeth(m, mode_no=n, seed=seed, sampling=("inversion" if path == "ppf" else "mcmc"))
         k = np.asarray(g._cov_sample, dtype=float)
         if k.shape != (dim, n):
@@ -81,6 +84,38 @@ def spectral_cell(job):
     return res
 
 
+def build_by_history(cls, dim, ls, hist):
+    """the model of a spectral cell: constructed directly (hist None) or brought to (dim, len_scale) through the
+    public setters: ("dim", d0) construct at dimension d0 then `m.dim = dim`; ("copydim", d0) the same on a deepcopy
+    (the idiom of /repo's tests); ("len", l0) construct with len_scale l0 then `m.len_scale = ls`;
+    ("rescale", r0) construct with rescale r0 then set the class default back"""
+    import copy
+    import gstools as gs
+    cl = getattr(gs, cls)
+    if not hist:
+        return cl(dim=dim, var=1.0, len_scale=ls)
+    kind, arg = hist
+    if kind == "dim":
+        m = cl(dim=int(arg), var=1.0, len_scale=ls)
+        m.dim = dim
+    elif kind == "copydim":
+        m = copy.deepcopy(cl(dim=int(arg), var=1.0, len_scale=ls))
+        m.dim = dim
+    elif kind == "len":
+        m = cl(dim=dim, var=1.0, len_scale=float(arg))
+        m.len_scale = ls
+    elif kind == "rescale":
+        m = cl(dim=dim, var=1.0, len_scale=ls, rescale=float(arg))
+        m.rescale = cl(dim=dim).rescale
+    else:
+        raise ValueError("unknown history %r" % (hist,))
+    return m
+
+
+def hist_tag(hist):
+    return "%s:%s" % (hist[0], hist[1]) if hist else "constructor"
+
+
 def all_cells():
     import gstools as gs
     cells = []
@@ -98,6 +133,8 @@ def all_cells():
 
 def judge_cell(ctx, r, stage):
     key = kf_key(r["cls"], r["dim"], r["path"], r["N"])
+    if r.get("history"):
+        key += ":history=" + hist_tag(r["history"])
     if "error" in r:
         ctx.violation(stage, "generator construction failed: %s" % r["error"], r, key=key + ":error")
         return False
@@ -109,9 +146,9 @@ def judge_cell(ctx, r, stage):
                       r, key="amplitudes:%s:dim=%d" % (r["cls"], r["dim"]))
     if bad:
         w = r["worst"]
-        ctx.violation(stage, "%s dim=%d sampling=%s mode_no=%d seed=%d: mean cos<k,h> = %.4f but rho(h) = %.4f "
+        ctx.violation(stage, "%s dim=%d sampling=%s mode_no=%d seed=%d (model built by %s): mean cos<k,h> = %.4f but rho(h) = %.4f "
                       "(%.0f standard errors; median |k| = %.3g, max |k| = %.3g)" % (
-                          r["cls"], r["dim"], r["path"], r["N"], r["seed"], w["est"], w["rho"], w["sigmas"],
+                          r["cls"], r["dim"], r["path"], r["N"], r["seed"], hist_tag(r.get("history")), w["est"], w["rho"], w["sigmas"],
                           r["median_k"], r["max_k"]), r, key=key)
     return not bad
 
@@ -494,6 +531,261 @@ def fourier_probe(ctx, rng, n_cfg, n_seeds):
                               dict(case, seeds=[base, base + S], est=est, expect=expect), key="fourier-cov:%s:dim=%d" % (kind, dim))
 
 
+
+# ----------------------------------------------------------------------------------------- setter histories
+OPT_ARGS = {
+    "Matern": dict(nu=1.3), "Integral": dict(nu=2.0), "Stable": dict(alpha=1.4), "Rational": dict(alpha=2.0),
+    "SuperSpherical": dict(nu=3.0), "JBessel": dict(nu=3.0), "TPLGaussian": dict(hurst=0.6, len_low=0.3),
+    "TPLExponential": dict(hurst=0.6, len_low=0.3), "TPLStable": dict(alpha=1.4, hurst=0.6, len_low=0.3),
+    "TPLSimple": dict(nu=3.5),
+}
+
+
+def fresh_like(m):
+    """a newly constructed model with the parameters the given model has now"""
+    kw = dict(dim=m.dim, var=float(m.var), len_scale=float(m.len_scale), nugget=float(m.nugget), rescale=float(m.rescale),
+              hankel_kw=dict(m.hankel_kw))
+    if m.dim > 1:
+        kw.update(anis=[float(a) for a in m.anis], angles=[float(a) for a in m.angles])
+    kw.update({k: float(getattr(m, k)) for k in m.opt_arg})
+    return type(m)(**kw)
+
+
+def setter_histories(cls, rng, full):
+    """(tag, model) pairs: the model reached its configuration through public setters after construction"""
+    import copy
+    import gstools as gs
+    cl = getattr(gs, cls)
+    opt = OPT_ARGS.get(cls, {})
+    valid = [d for d in (1, 2, 3) if cl(dim=d).check_dim(d)]
+    out = []
+    pairs = [(a, b) for a in valid for b in valid if a != b]
+    if not full and len(pairs) > 3:
+        pairs = [pairs[i] for i in rng.permutation(len(pairs))[:3]]
+    for a, b in pairs:
+        m = cl(dim=a, len_scale=1.7, **opt)
+        m.dim = b
+        out.append(("dim %d->%d" % (a, b), m))
+    if len(valid) > 1:
+        a, b = valid[0], valid[-1]
+        m = copy.deepcopy(cl(dim=a, len_scale=0.8, **opt))
+        m.dim = b
+        out.append(("deepcopy, dim %d->%d" % (a, b), m))
+        m = cl(dim=b, len_scale=0.8, **opt)
+        m.dim = a
+        m.dim = b
+        out.append(("dim %d->%d->%d" % (b, a, b), m))
+    d = int(rng.choice(valid))
+    m = cl(dim=d, **opt)
+    m.len_scale = 3.1
+    out.append(("len_scale setter, dim %d" % d, m))
+    m = cl(dim=d, len_scale=2.0, **opt)
+    m.rescale = 2.3
+    out.append(("rescale setter, dim %d" % d, m))
+    m = cl(dim=d, len_scale=2.0, **opt)
+    m.var = 2.5
+    m.nugget = 0.4
+    out.append(("var/nugget setters, dim %d" % d, m))
+    if valid[-1] > 1:
+        dd = valid[-1]
+        m = cl(dim=dd, len_scale=2.0, **opt)
+        m.anis = [0.6] * (dd - 1)
+        m.angles = [0.4] * (dd * (dd - 1) // 2)
+        out.append(("anis/angles setters, dim %d" % dd, m))
+    if opt:
+        m = cl(dim=d, len_scale=2.0)
+        for k, v in opt.items():
+            setattr(m, k, v)
+        out.append(("optional-argument setters %s, dim %d" % (sorted(opt), d), m))
+    m = cl(dim=d, len_scale=2.0, **opt)
+    m.hankel_kw = dict(N=300, h=0.0008)
+    out.append(("hankel_kw setter, dim %d" % d, m))
+    return out
+
+
+def setter_probe(ctx, rng, full):
+    """deterministic: spectral_density / spectral_rad_pdf / spectrum of a model configured through setters equal those
+    of a freshly constructed model with the same parameters on a k grid (1e-12 of the largest value; they are the same
+    computation, so they should be bit-equal).  All 17 classes."""
+    n = 0
+    for cls in CLASSES:
+        try:
+            hs = setter_histories(cls, rng, full)
+        except Exception as e:
+            ctx.violation("probe: setter history", "%s: setter sequence raised %s: %s" % (cls, type(e).__name__, str(e)[:200]),
+                          dict(cls=cls), key="setter-history:%s:exception" % cls)
+            continue
+        reported = False
+        for tag, m in hs:
+            if reported:        # one report per class: further histories of the same class repeat the same defect
+                n += 1
+                continue
+            f = fresh_like(m)
+            kgrid = np.array([0.0, 0.01, 0.1, 0.3, 0.7, 1.0, 2.0, 5.0, 10.0]) / float(f.len_rescaled)
+            ctx.count(("setter", cls, tag), hist=dict(setter_class=cls, setter_history=tag.split(",")[0].split(" dim")[0]))
+            n += 1
+            for fn in ("spectral_density", "spectral_rad_pdf", "spectrum"):
+                a = np.asarray(getattr(m, fn)(kgrid), dtype=float)
+                b = np.asarray(getattr(f, fn)(kgrid), dtype=float)
+                scale = float(np.max(np.abs(b))) if np.isfinite(b).all() and b.size else 1.0
+                if a.shape != b.shape or not C.close(a, b, rtol=0.0, atol=1e-12 * scale + 1e-300):
+                    ctx.violation("probe: setter history",
+                                  "%s configured by [%s]: %s differs from a freshly constructed model with the same parameters: %s vs %s at k = %s"
+                                  % (cls, tag, fn, a.tolist(), b.tolist(), kgrid.tolist()),
+                                  dict(cls=cls, history=tag, function=fn, k=kgrid.tolist(), by_setters=a.tolist(), fresh=b.tolist(),
+                                       params=dict(dim=f.dim, var=float(f.var), len_scale=float(f.len_scale), rescale=float(f.rescale),
+                                                   opt={k: float(getattr(f, k)) for k in f.opt_arg}, hankel_kw=dict(f.hankel_kw))),
+                                  key="setter-history:%s:%s:%s" % (cls, tag.split(",")[0], fn))
+                    reported = True
+                    break
+    return n
+
+
+def history_cells(rng, armed_set, thorough):
+    """spectral cells (mode_no 1000, MCMC) whose model reaches an ARMED (class, dim) through setters"""
+    import gstools as gs
+    cells = []
+    for cls in CLASSES:
+        valid = [d for d in (1, 2, 3) if getattr(gs, cls)(dim=d).check_dim(d)]
+        finals = [d for d in valid if (cls, d, "mcmc", 1000) in armed_set]
+        if not finals:
+            continue
+        opts = []
+        for d in finals:
+            for d0 in valid:
+                if d0 != d:
+                    opts.append((cls, d, "mcmc", 1000, ("dim", d0)))
+                    opts.append((cls, d, "mcmc", 1000, ("copydim", d0)))
+            opts.append((cls, d, "mcmc", 1000, ("len", 0.7)))
+            opts.append((cls, d, "mcmc", 1000, ("rescale", 1.9)))
+        dimh = [o for o in opts if o[4][0] in ("dim", "copydim")]
+        oth = [o for o in opts if o[4][0] not in ("dim", "copydim")]
+        if thorough:
+            cells += opts
+        else:
+            if dimh:
+                cells.append(dimh[int(rng.integers(len(dimh)))])
+            else:
+                cells.append(oth[int(rng.integers(len(oth)))])
+    return cells
+
+
+# ----------------------------------------------------------------------------------------- variance, all generators
+def sill_probe(ctx, rng, m, meta, generator, gen_kw, n_seeds, stage):
+    """pointwise variance (per-seed average over 40 far locations) and one short-lag covariance over seeds through
+    SRF.__call__ for any of the three generators.  Expectations: RandMeth var + nugget and cov_spatial(h); Fourier
+    sum_j sf_j^2 + nugget and sum_j sf_j^2 cos<k_j, iso h> (exact by C01_fourier_covariance); IncomprRandMeth trace
+    mean_u^2 var (1 - 1/d) + d nugget.  Threshold 8 SE (over seeds) + 2 %."""
+    import gstools as gs
+    dim = m.dim
+    srf = gs.SRF(m, generator=generator, seed=0, **gen_kw)
+    gen = srf.generator
+    far = rng.uniform(-100, 100, size=(dim, 40)) * m.len_scale
+    v = rng.normal(size=dim)
+    h = v / np.linalg.norm(v) * 0.5 * m.len_scale
+    pair = np.array([far[:, 0], far[:, 0] + h]).T
+    pos = np.hstack([far, pair])
+    base = int(rng.integers(0, 2 ** 30))
+    vals, prods = np.empty(n_seeds), np.empty(n_seeds)
+    vector = generator in ("VectorField", "IncomprRandMeth")
+    for s in range(n_seeds):
+        f = np.asarray(srf([pos[d] for d in range(dim)], seed=base + s), dtype=float)
+        if vector:
+            dev = f.copy()
+            dev[0] -= gen.mean_u
+            vals[s] = (dev[:, :40] ** 2).sum(axis=0).mean()
+            prods[s] = 0.0
+        else:
+            vals[s] = (f[:40] ** 2).mean()
+            prods[s] = f[40] * f[41]
+    if vector:
+        expect = gen.mean_u ** 2 * m.var * (1.0 - 1.0 / dim) + dim * m.nugget
+        cov_expect = None
+    elif generator == "Fourier":
+        w = np.asarray(gen._spectrum_factor) ** 2
+        expect = float(w.sum()) + m.nugget
+        cov_expect = float((w * np.cos(np.asarray(m.isometrize(h.reshape(dim, 1)))[:, 0] @ np.asarray(gen._modes))).sum())
+    else:
+        expect = m.var + m.nugget
+        cov_expect = float(m.cov_spatial(h.reshape(dim, 1))[0])
+    case = dict(meta, generator=generator, generator_kwargs={k: (list(map(float, np.atleast_1d(x))) if not np.isscalar(x) else x) for k, x in gen_kw.items()},
+                seeds=[base, base + n_seeds], lag=[float(x) for x in h])
+    ctx.count(("sill", generator, meta.get("cls"), dim, round(float(m.nugget), 3)), n=n_seeds,
+              hist=dict(sill_generator=generator, sill_dim=dim, sill_nugget=round(float(m.nugget), 2)))
+    est, se = float(vals.mean()), float(vals.std(ddof=1) / math.sqrt(n_seeds))
+    ok = True
+    if abs(est - expect) > 8 * se + 0.02 * expect:
+        ok = False
+        ctx.violation(stage + " pointwise variance",
+                      "%s, nugget %.3g: %s over 40 locations and %d seeds is %.4f, expected %.4f (se %.4f)" % (
+                          generator, m.nugget, "trace of the pointwise covariance" if vector else "pointwise variance", n_seeds, est, expect, se),
+                      dict(case, est=est, expect=expect, se=se), key="variance:%s:%s:dim=%d" % (generator, meta.get("cls"), dim))
+    if cov_expect is not None:
+        c_est, c_se = float(prods.mean()), float(prods.std(ddof=1) / math.sqrt(n_seeds))
+        if abs(c_est - cov_expect) > 8 * c_se + 0.02 * expect:
+            ok = False
+            ctx.violation(stage + " covariance",
+                          "%s: covariance at lag 0.5 len_scale over %d seeds is %.4f, expected %.4f (se %.4f)" % (generator, n_seeds, c_est, cov_expect, c_se),
+                          dict(case, est=c_est, expect=cov_expect, se=c_se), key="covariance:%s:%s:dim=%d" % (generator, meta.get("cls"), dim))
+    return ok
+
+
+def _gen_kwargs(rng, m, generator):
+    if generator == "Fourier":
+        L = 14.0 * m.len_scale * max([1.0] + list(m.anis))
+        return dict(period=[L] * m.dim, mode_no=[16 if m.dim == 1 else 8] * m.dim)
+    if generator == "VectorField":
+        return dict(mode_no=64, mean_velocity=float(rng.uniform(0.5, 2.0)))
+    return dict(mode_no=64)
+
+
+def variance_probe(ctx, rng, n_seeds):
+    """the pointwise-variance clause of the property for ALL THREE generators, nugget 0.25 and 2.5 (clearly different from
+    0, 1 and their squares)"""
+    import gstools as gs
+    for generator in ("RandMeth", "Fourier", "VectorField"):
+        for nugget in (0.25, 2.5):
+            kind = ["Gaussian", "Exponential"][int(rng.integers(2))]
+            dim = 2 if generator == "VectorField" else int(rng.integers(1, 3))
+            m, meta = _model_for(rng, dim, kind)
+            m.var = float(rng.uniform(0.3, 0.8))
+            m.nugget = nugget
+            meta.update(var=m.var, nugget=nugget)
+            sill_probe(ctx, rng, m, meta, generator, _gen_kwargs(rng, m, generator), n_seeds, "probe: ensemble")
+
+
+def probe_broken_configs(ctx, rng, broken, n_seeds):
+    """a generator-level correspondence disagreement: before reporting a broken tie without input, run the
+    variance / covariance ensemble on (up to 4 of) the very configurations that disagreed"""
+    import gstools as gs
+    seen, todo = set(), []
+    for op, case in sorted(broken, key=lambda b: -float((b[1] or {}).get("nugget", 0) > 0)):
+        if not isinstance(case, dict) or "cls" not in case or "generator" not in case:
+            continue
+        g = {"RandMeth": "RandMeth", "Fourier": "Fourier", "IncomprRandMeth": "VectorField"}.get(case["generator"])
+        k = (g, case["cls"], case["dim"], case.get("nugget", 0) > 0)
+        if g is None or k in seen:
+            continue
+        seen.add(k)
+        todo.append((g, case))
+    for g, case in todo[:4]:
+        if g != "RandMeth" and case["dim"] == 3 and False:
+            continue
+        kw = dict(dim=case["dim"], var=case["var"], len_scale=case["len_scale"], nugget=case["nugget"])
+        if case["dim"] > 1:
+            kw.update(anis=case["anis"], angles=case["angles"])
+        m = getattr(gs, case["cls"])(**kw)
+        if g == "Fourier":
+            gk = dict(period=case["period"], mode_no=case["mode_no"])
+        elif g == "VectorField":
+            gk = dict(mode_no=max(int(case["mode_no"]), 16), mean_velocity=case.get("mean_velocity", 1.0))
+        else:
+            gk = dict(mode_no=max(int(case["mode_no"]), 16))
+        meta = {k: case[k] for k in ("cls", "dim", "var", "len_scale", "anis", "angles", "nugget")}
+        S = n_seeds if m.has_ppf else max(100, n_seeds // 4)
+        sill_probe(ctx, rng, m, meta, g, gk, S, "probe: ensemble on a configuration whose correspondence disagreed:")
+
+
 # ----------------------------------------------------------------------------------------- run
 def load_local_known(ctx):
     """known_findings.json is assembled from known_findings.d/*.json by the coordinator; until then (and in any case)
@@ -554,7 +846,9 @@ def run(ctx):
     broken = []
     try:
         # ---- 1. tie by translation
+        t0 = time.time()
         gen = C.regenerate(which=["Summator_gen.v"])
+        C.log("[C01] pool start + translation %.1fs (t=%.1fs)" % (time.time() - t0, time.time() - ctx.t0))
         for k, v in gen.items():
             ctx.tie[k] = "translated (pyx2coq)" if not v else "TRANSLATION FAILED: " + v
             if v:
@@ -587,9 +881,16 @@ def run(ctx):
             C.log("[C01] correspondence: %d driver calls, %d disagreements (driver build + run %.1fs)" % (drv.calls, len(broken), time.time() - t0))
         # ---- 4. probes
         t0 = time.time()
-        ensemble_probe(ctx, rng, 10 if thorough else 5, 900 if thorough else 400)
+        ensemble_probe(ctx, rng, 10 if thorough else 4, 900 if thorough else 400)
         fourier_probe(ctx, rng, 6 if thorough else 3, 900 if thorough else 400)
-        C.log("[C01] ensemble + Fourier probes %.1fs" % (time.time() - t0))
+        variance_probe(ctx, rng, 500 if thorough else 300)
+        C.log("[C01] ensemble + Fourier + variance (3 generators) probes %.1fs" % (time.time() - t0))
+        t0 = time.time()
+        n_hist = setter_probe(ctx, rng, thorough)
+        C.log("[C01] setter histories: %d (class, history) pairs compared with fresh models in %.1fs" % (n_hist, time.time() - t0))
+        if broken:
+            probe_broken_configs(ctx, rng, broken, 400)
+        t0 = time.time()
         known_keys = {e["key"] for e in ctx.kf if e.get("status", "open") == "open"}
         armed = [c for c in all_cells() if kf_key(*c) not in known_keys]
         # verdict of a cell = the MEDIAN (by deviation/threshold ratio) of R independent generator seeds: a systematic break
@@ -603,16 +904,20 @@ def run(ctx):
             pick = [big[i] for i in rng.permutation(len(big))[:8]] + [small[i] for i in rng.permutation(len(small))[:14]]
             reps = lambda c: 3 if c[3] == 1000 else 1
         jobs = [c + (int(rng.integers(1, 2 ** 31 - 1)), LEN_SCALE) for c in pick for _ in range(reps(c))]
+        hcells = history_cells(rng, set(armed), thorough)
+        jobs += [c[:4] + (int(rng.integers(1, 2 ** 31 - 1)), LEN_SCALE, c[4]) for c in hcells for _ in range(3)]
+        C.log("[C01] cell selection %.1fs" % (time.time() - t0))
         t0 = time.time()
         res = pool.map(spectral_cell, jobs, chunksize=1)
-        C.log("[C01] spectral cells: %d armed (of %d; %d are open known findings), %d cells / %d generators evaluated in %.1fs" % (
-            len(armed), len(all_cells()), len(known_keys), len(pick), len(jobs), time.time() - t0))
+        C.log("[C01] spectral cells: %d armed (of %d; %d are open known findings), %d cells + %d setter-history cells / %d generators evaluated in %.1fs" % (
+            len(armed), len(all_cells()), len(known_keys), len(pick), len(hcells), len(jobs), time.time() - t0))
         worst = 0.0
         groups = {}
         for r in res:
-            groups.setdefault((r["cls"], r["dim"], r["path"], r["N"]), []).append(r)
+            groups.setdefault((r["cls"], r["dim"], r["path"], r["N"], hist_tag(r.get("history"))), []).append(r)
         for cell, rs in groups.items():
-            ctx.count(("cell",) + cell, n=8 * len(rs), hist=dict(cell_class=cell[0], cell_dim=cell[1], cell_path=cell[2], cell_modes=cell[3]))
+            ctx.count(("cell",) + cell, n=8 * len(rs), hist=dict(cell_class=cell[0], cell_dim=cell[1], cell_path=cell[2], cell_modes=cell[3],
+                                                                 cell_history=cell[4].split(":")[0]))
             errs = [r for r in rs if "error" in r]
             if errs:
                 judge_cell(ctx, errs[0], "probe: spectral sampling")
@@ -626,7 +931,7 @@ def run(ctx):
                 ctx.sample(dict(spectral_cell=med))
             if rs[-1]["ratio"] > 1.0 >= med["ratio"]:
                 ctx.notes.append("sporadic deviation in one replicate of %s (ratios %s, seeds %s)" % (
-                    kf_key(*cell), med["replicate_ratios"], med["replicate_seeds"]))
+                    kf_key(*cell[:4]) + ":" + cell[4], med["replicate_ratios"], med["replicate_seeds"]))
         ctx.notes.append("armed spectral cells: worst median deviation/threshold ratio %.2f over %d cells" % (worst, len(groups)))
         # ---- 5. collect the corpus
         t0 = time.time()
@@ -658,7 +963,10 @@ def replay(ctx, path):
     case = rec.get("case") or {}
     load_local_known(ctx)
     if rec.get("stage", "").startswith(("probe: spectral", "corpus")) and "cls" in case:
-        r = spectral_cell((case["cls"], case["dim"], case["path"], case["N"], case["seed"], case.get("len_scale", LEN_SCALE)))
+        job = (case["cls"], case["dim"], case["path"], case["N"], case["seed"], case.get("len_scale", LEN_SCALE))
+        if case.get("history"):
+            job += (tuple(case["history"]),)
+        r = spectral_cell(job)
         print(json.dumps(r, indent=1))
         ctx.count(("replay", case["cls"], case["dim"], case["path"], case["N"]))
         judge_cell(ctx, r, rec["stage"])
